@@ -1,5 +1,8 @@
 import TruthModel.Driver.Sexp
 import TruthModel.Driver.C11
+import TruthModel.Driver.C02
+import TruthModel.Driver.C05
+import TruthModel.Driver.C09
 import TruthModel.Driver.C07
 import TruthModel.Driver.C15
 import TruthModel.Driver.C12
@@ -19,6 +22,9 @@ open TruthModel
 def handler (id : String) : Sexp → Sexp :=
   match id with
   | "C11" => Driver.C11.handle
+  | "C02" => Driver.C02.handle
+  | "C05" => Driver.C05.handle
+  | "C09" => Driver.C09.handle
   | "C07" => Driver.C07.handle
   | "C15" => Driver.C15.handle
   | "C12" => Driver.C12.handle
